@@ -76,6 +76,11 @@ CLAIMED = {
                 text="Carrier.tla models Channel.ReadFrom and utils.ByteReader over readers that return arbitrary (n, err) results (short reads, data together with EOF, empty "
                      "reads, failures); TLC checks exactness for every script of <= 3 results; all those scripts run on the real code (sync and queued channels) and are validated "
                      "by TLC; every head-handler carrier type x boundary size x channel mode and the conversion helpers over fragmenting readers are compared byte for byte."),
+    "C20": dict(engine="idle", design="3/C20", technique="TLA+ model checking (TLC) of Idle.tla (discrete clock, timer, callback sections) + timed replay with hook-gated callback sections and one-sided wall-clock oracles on the real idle handlers",
+                text="TLC checks not-early, timer persistence while active, no timing after inactive and at most the in-flight callbacks delivering afterwards, for reads/writes at every "
+                     "tick offset and inactive at every point of a running callback; state-graph paths run on the real handlers (60-75 ms periods) with the three callback sections "
+                     "gated by hooks and are validated by TLC against the logical clock; ungated random timing scenarios, silence (re-delivery) and panicking event handlers are "
+                     "judged by oracles that use wall-clock time only in the sound direction."),
 }
 NA = {}
 for p in props:
@@ -105,6 +110,7 @@ engines = {}
 for pid, c in CLAIMED.items():
     engines.setdefault(c["engine"], []).append(pid)
 ENG = {
+    "idle": ("spec/Idle.tla + spec/TraceIdle.tla + harness/cmd/driver/idle.go", "TLA+ spec of the idle handlers' timer protocol; timed, hook-gated replay and trace validation; one-sided wall-clock oracles"),
     "carrier": ("spec/Carrier.tla + spec/TraceCarrier.tla + harness/cmd/driver/carrier.go", "TLA+ model of ReadFrom/ByteReader over scripted readers; complete replay of the bounded script space"),
     "wire": ("spec/Wire.tla + spec/TraceWire.tla + harness/cmd/driver/wire.go", "exact bufio model; TLC exhaustive sequences; replay + trace validation on the real transport wrappers"),
     "frame": ("spec/Frame.tla + spec/TraceFrame.tla + harness/cmd/driver/frame.go", "TLA+ transcription of the frame codecs; TLC exhaustive checking over configurations/lengths/cut points; trace validation of the real codecs"),
